@@ -221,6 +221,9 @@ class Ctx:
             if kind == 'assign' and payload['rv']['k'] == 'use' and payload['rv']['a']['k'] in ('copy', 'move', 'const'):
                 out.extend(self.alts(b, payload['rv']['a'], dbb, dpos, proj))
                 continue
+            if kind == 'assign' and payload['rv']['k'] == 'ref' and not any(isinstance(e, dict) and ('idx' in e or 'cidx' in e or 'dc' in e) for e in payload['rv']['pl']['p']):
+                out.extend(self.alts(b, {'k': 'copy', 'pl': payload['rv']['pl']}, dbb, dpos, proj))
+                continue
             v = b.dag().defdag(pl['l'], d)
             for f in proj:
                 v = mk_field(f, v)
